@@ -114,7 +114,8 @@ pub fn note_schedule(a: &mut Acc, out: &Outcome) {
 pub fn tiny_spec(rng: &mut Rng, long_arcs: bool) -> CaseSpec {
     // keep instances whose sequential branch-and-bound explores 3..40 sub-problems, so that several workers really get nodes
     let mut last = None;
-    for _ in 0..30 {
+    let tries = if std::env::var("VH_SMALL").is_ok() { 2 } else { 30 };
+    for _ in 0..tries {
         let p = Profile { long_arcs_only: long_arcs, max_width: 2, with_dominance: true, ..Default::default() };
         let mut spec = random_spec(rng, &p);
         spec.cfg.width = WidthKind::Fixed(1 + rng.usize(2));
